@@ -99,6 +99,39 @@ Definition get_parsed_instance_model (ext : text) (f : flags) (content : text) :
   end.
 
 (* ------------------------------------------------------------------------------------------------ *)
+(* the declared type each entry point derives from the path / URL it is given                       *)
+(* ------------------------------------------------------------------------------------------------ *)
+(* s up to (not including) the first c *)
+Fixpoint take_until (c : N) (s : text) : text :=
+  match s with
+  | [] => []
+  | x :: r => if N.eqb x c then [] else x :: take_until c r
+  end.
+(* s.split(c)[-1] : what follows the LAST c; the whole of s when c does not occur *)
+Definition after_last (c : N) (s : text) : text := rev (take_until c (rev s)).
+Definition has_char (c : N) (s : text) : bool := existsb (N.eqb c) s.
+
+(* parse_file: os.path.splitext(filepath)[1][1:]  (posixpath: the extension starts at the last dot of the LAST path
+   component, unless only dots precede it in that component - ".soc" and "...soc" have no extension) *)
+Definition splitext_ext (path : text) : text :=
+  let base := after_last 47 path in
+  if has_char 46 base then
+    let e := after_last 46 base in
+    let stem := firstn (List.length base - S (List.length e)) base in
+    if forallb (N.eqb 46) stem then [] else e
+  else [].
+(* parse_url: url.split(".")[-1]  (what follows the last dot of the WHOLE url) *)
+Definition url_ext (url : text) : text := after_last 46 url.
+
+Definition parse_file_path (c : cls) (path : text) (f : flags) (content : text) : result inst :=
+  parse_file_model c (splitext_ext path) f content.
+Definition parse_url_url (c : cls) (url : text) (f : flags) (content : text) : result inst :=
+  parse_url_model c (url_ext url) f content.
+(* get_parsed_instance(path): os.path.splitext(path)[1] is compared with ".soc" ... ".wmd" *)
+Definition get_parsed_instance_path (path : text) (f : flags) (content : text) : result inst :=
+  get_parsed_instance_model (splitext_ext path) f content.
+
+(* ------------------------------------------------------------------------------------------------ *)
 (* observables shared by the three classes                                                          *)
 (* ------------------------------------------------------------------------------------------------ *)
 Definition inst_meta (i : inst) : meta :=
